@@ -369,6 +369,12 @@ def analyze(ctx, want):
             exp = "MatchesReachedEnd"
         else:
             exp = None
+        # the decision list is ordered: a later row may only be chosen after the earlier tests were negative
+        if r[2] == "NotFound" and not switched:
+            ob("C11.e", "peek_n:NotFound-only-after-len==n-was-excluded", bool(eqn) and eqn[-1] is False,
+               "NotFound is returned on a path that %s the 'all n found' test (peek_n(0) must report Matches([]))" % ("failed" if eqn else "never made"), pk.loc())
+        if r[2] == "MatchesReachedEnd" and not switched:
+            ob("C11.e", "peek_n:ReachedEnd-only-after-the-other-rows", bool(eqn) and eqn[-1] is False and bool(empt) and empt[-1] is False, "tests made: len==n %s, empty %s" % (eqn, empt), pk.loc())
         ob("C11.e", "peek_n:classification:" + str(exp), r[2] == exp,
            "returns %s where the decision order (switch, len == n, empty, else reached end) gives %s" % (r[2], exp), pk.loc())
         if r[2] in ("Matches", "MatchesReachedEnd"):
